@@ -325,6 +325,10 @@ class ShapelyBoundary(BoundaryDomain):
         counter = 0
         for corners in outline:
             for i in range(len(corners) - 1):
+                if torch.equal(corners[i], corners[i + 1]):
+                    # a repeated vertex is no side (it has no normal)
+                    counter += 1
+                    continue
                 line = s_geo.LineString([corners[i], corners[i + 1]])
                 not_found = torch.where(index < 0)[0]
                 for k in not_found:
